@@ -157,3 +157,52 @@ def stroke_image(hlines, vlines, H=600, W=800, asc=12, desc=4, half=8):
         img[y0:y1, x - half:x + half, 0] = int(255 * asc / 40)
         img[y0:y1, x - half:x + half, 1] = int(255 * desc / 20)
     return img
+
+
+def patch_tiny_vgg():
+    """torchvision.models.vgg16 replaced by a VGG-shaped stack of 17 feature layers with 4-8 channels and random weights (no
+    download), so that the repository's real build_net / ConvolutionalEncoder path can be exercised offline."""
+    import torch
+    import torchvision
+
+    def tiny_vgg(pretrained=False, **kw):
+        ch = [(3, 4), (4, 4), 'M', (4, 6), (6, 6), 'M', (6, 8), (8, 8), (8, 8), 'M']
+        layers = []
+        for c in ch:
+            if c == 'M':
+                layers.append(torch.nn.MaxPool2d(2, 2))
+            else:
+                layers += [torch.nn.Conv2d(c[0], c[1], 3, padding=1), torch.nn.ReLU(inplace=True)]
+        m = torch.nn.Module()
+        m.features = torch.nn.Sequential(*layers)
+        return m
+    torchvision.models.vgg16 = tiny_vgg
+
+
+def make_transformer_engine(root, seed, H=32, dim=16, heads=2, dff=32, enc=1, dec=2, chars='abcdef', eos_bias=0.5):
+    """writes a state dict + JSON and loads them through the real TransformerEngineLineOCR.__init__ (real build_net)"""
+    import contextlib
+    import io
+    import torch
+    from pero_ocr.ocr_engine import transformer as T
+    from pero_ocr.ocr_engine.transformer_ocr_engine import TransformerEngineLineOCR
+    patch_tiny_vgg()
+    os.makedirs(root, exist_ok=True)
+    net_cfg = {'dim_model': dim, 'dim_ff': dff, 'heads': heads, 'encoder_layers': enc, 'decoder_layers': dec, 'conv_subsampling': [8, 8]}
+    torch.manual_seed(seed)
+    with contextlib.redirect_stdout(io.StringIO()):
+        net = T.build_net(net_cfg, H, 3, len(chars))
+    for n_, p in net.named_parameters():
+        if p.dim() > 1:
+            torch.nn.init.normal_(p, std=0.4)
+    with torch.no_grad():
+        net.dec_embeder.weight.normal_(std=2.0)
+        net.dec_out_proj.weight.normal_(std=1.0)
+        net.dec_out_proj.bias.zero_()
+        net.dec_out_proj.bias[len(chars)] = eos_bias
+    torch.save(net.state_dict(), root + '/t.pt')
+    with open(root + '/t.json', 'w') as f:
+        json.dump({'line_px_height': H, 'line_vertical_scale': 1, 'checkpoint': 't.pt', 'characters': list(chars), 'net_name': json.dumps(net_cfg)}, f)
+    with contextlib.redirect_stdout(io.StringIO()):
+        e = TransformerEngineLineOCR(root + '/t.json', torch.device('cpu'))
+    return e
